@@ -28,7 +28,8 @@ static uint64_t limitN = UINT64_MAX;   /* total number of input frames of the st
 static int is_cr;                /* constant-rate engine (plan export possible) */
 static uint64_t sig_shift;       /* op `shift d`: the stream is d arbitrary frames followed by the unshifted signal */
 static uint64_t win_a, win_n, win_seg; static uint64_t * win_hash; static size_t win_cnt;  /* op `window a n seg` */
-static size_t stale_ilen;        /* op `stale n`: the ilen passed along with in == NULL (soxr.h puts no requirement on it) */
+static size_t stale_ilen;
+static int eoi_style;           /* op `eoistyle k`: how end-of-input is signalled and how the drain calls look (see after_end) */        /* op `stale n`: the ilen passed along with in == NULL (soxr.h puts no requirement on it) */
 
 /* ---------- deterministic input signal: a function of (channel, absolute frame index) only */
 static double sig(unsigned c, uint64_t i)
@@ -269,7 +270,7 @@ static void do_create(char * * t, int nt)
   rt.flags = kvu(t, nt, "rtflags", 0);
   if (S) soxr_delete(S);
   S = soxr_create(irate, orate, ch, &create_err, &io, &q, &rt);
-  pos = total_out = 0; memset(hash, 0, sizeof(hash)); max_ilen_set = 0; limitN = UINT64_MAX; sig_shift = 0;
+  pos = total_out = 0; memset(hash, 0, sizeof(hash)); max_ilen_set = 0; limitN = UINT64_MAX; sig_shift = 0; eoi_style = 0;
   free(win_hash); win_hash = 0;
   if (!S) { printf("< CREATE err %s\n", create_err); return; }
   e = (char *)soxr_engine(S);
@@ -316,6 +317,30 @@ static void run_process(int hasIn, int flushReq, int useIdone, size_t ilen, size
   printf("\n");
 }
 
+static void do_eoi(void)
+{
+  size_t idone = 7, odone = 7;
+  soxr_process(S, 0, 0, &idone, 0, 0, &odone);
+  printf("> cr.eoi\n< R id=%zu od=%zu used=0 reqs=", idone, odone);
+  print_state();
+  printf("\n");
+}
+
+/* one call once the stream is used up.  eoi_style 0: in == NULL throughout (with the stale ilen);  1: end-of-input by a call with
+ * neither buffer, then drains that pass a non-NULL input of 0 frames;  2: end-of-input by in == NULL, then such drains;
+ * 3: end-of-input by ilen = ~0 with a non-NULL input, then in == NULL drains.  All four say the same thing in soxr.h's terms. */
+static void after_end(size_t ol, char * * scr, int nscr)
+{
+  if (!S->flushing) {
+    if (eoi_style == 1) { do_eoi(); return; }
+    if (eoi_style == 3) { run_process(1, 1, 0, 0, ol, scr, nscr, 0); return; }
+    run_process(0, 0, 0, stale_ilen, ol, scr, nscr, 0);
+    return;
+  }
+  if (eoi_style == 1 || eoi_style == 2) run_process(1, 0, 0, 0, ol, scr, nscr, 0);
+  else run_process(0, 0, 0, stale_ilen, ol, scr, nscr, 0);
+}
+
 int main(void)
 {
   static char line[1 << 20]; char * t[4096]; int nt;
@@ -350,13 +375,14 @@ int main(void)
       size_t il = (size_t)strtoull(t[1], 0, 10), ol = (size_t)strtoull(t[2], 0, 10);
       /* once end-of-input has been signalled no more input is offered (soxr.h: "no data is available nor shall be available") */
       if (pos < limitN && !S->flushing) { if (il > limitN - pos) il = (size_t)(limitN - pos); run_process(1, 0, atoi(t[3]), il, ol, t + 4, nt - 4, 0); }
-      else run_process(0, 0, 0, stale_ilen, ol, t + 4, nt - 4, 0);
+      else after_end(ol, t + 4, nt - 4);
     }
     else if (!strcmp(t[0], "drain") && nt >= 2) {    /* drain ol: end of input, then requests of ol frames until one returns nothing, then one more */
       size_t ol = (size_t)strtoull(t[1], 0, 10); int guard = 0, empty = 0;
+      if (!S->flushing && eoi_style == 1) do_eoi();
       while (empty < 2 && guard++ < 2000000) {
         uint64_t before = total_out;
-        run_process(0, 0, 0, stale_ilen, ol, t + 2, nt - 2, 0);
+        after_end(ol, t + 2, nt - 2);
         if (total_out == before || S->error) ++empty;
       }
     }
@@ -368,6 +394,8 @@ int main(void)
         if (total_out == before || S->error) ++empty;
       }
     }
+    else if (!strcmp(t[0], "eoi")) do_eoi();     /* end of input signalled by a call with neither an input nor an output buffer */
+    else if (!strcmp(t[0], "eoistyle") && nt >= 2) eoi_style = atoi(t[1]);
     else if (!strcmp(t[0], "pull") && nt >= 2)
       run_process(0, 0, 0, 0, (size_t)strtoull(t[1], 0, 10), t + 2, nt - 2, 1);
     else if (!strcmp(t[0], "delay")) {
